@@ -7,6 +7,7 @@ FI = "./pkg/filter"
 FO = "./pkg/font"
 API = "./pkg/api"
 PD = "./pkg/pdfcpu"
+CLI = "./pkg/cli"
 MO = "./pkg/pdfcpu/model"
 SG = "./pkg/pdfcpu/sign"
 PR = "./pkg/pdfcpu/primitives"
@@ -15,14 +16,15 @@ PROPS = {
     "C01": dict(
         pkg=API,
         explanation="the api *File glue (open input, stage output via O_EXCL reservation or hidden temp file, processing, deferred commit/cleanup) is executed symbolically on the interpreted file system model: path relation (in place, same string, new output, existing output, different spelling, hard link, symbolic link to an existing output / to the input) and the processing outcome (success, error after a partial write, panic) are forked; which file system call of the operation table fails, at which call the process is killed, the file contents and the permission bits are solver variables (every content / mode comparison is an SMT query); attachment extraction (writeAttachments: reservation, staged write, release; names incl. one whose reservation exceeds NAME_MAX, collisions) is harnessed separately; the same harness replays natively on the real file system",
-        outside="operations other than the harnessed ones (one harness per wrapper family is written by hand; the generator over all 117 *File functions of DESIGN 3.4 is not built), the processing steps themselves (stubbed: they read the input, write the output, fail or panic), more than one injected fault per run, power loss (C07), CLI layer (pkg/cli)",
+        outside="operations other than the harnessed ones (one harness per wrapper family is written by hand; the generator over all 117 *File functions of DESIGN 3.4 is not built), the processing steps themselves (stubbed: they read the input, write the output, fail or panic), more than one injected fault per run, power loss (C07); of pkg/cli only the stream plumbing of io.go is harnessed (VerifStreamInOut: cli.Optimize with standard input / output redirected to files)",
         assumptions=["file system contract of rt/vfs.go: failed calls change nothing, rename is atomic, O_EXCL create fails iff the name exists, CreateTemp returns a fresh name", "stub contract: processing touches nothing but its reader and writer"],
         harnesses=[dict(name="VerifOptimizeFile", bounds=dict(quick=dict(CALLS=10), thorough=dict(CALLS=12)), opts=dict(unwind=300, workers=8)),
                    dict(name="VerifMergeCreateFile", bounds=dict(quick=dict(CALLS=10), thorough=dict(CALLS=12)), opts=dict(unwind=300, workers=8)),
                    dict(name="VerifMergeAppendFile", bounds=dict(quick=dict(CALLS=10), thorough=dict(CALLS=12)), opts=dict(unwind=300, workers=8)),
                    dict(name="VerifMergeCreateZipFile", bounds=dict(quick=dict(CALLS=10), thorough=dict(CALLS=12)), opts=dict(unwind=300, workers=8)),
                    dict(name="VerifWriteContextAbort", pkg=PD, opts=dict(unwind=300, workers=4)),
-                   dict(name="VerifWriteAttachments", bounds=dict(quick=dict(CALLS=14), thorough=dict(CALLS=18)), opts=dict(unwind=3000, workers=8))],
+                   dict(name="VerifWriteAttachments", bounds=dict(quick=dict(CALLS=14), thorough=dict(CALLS=18)), opts=dict(unwind=3000, workers=8)),
+                   dict(name="VerifStreamInOut", pkg=CLI, opts=dict(unwind=300, workers=8))],
     ),
     "C02": dict(
         pkg=API,
@@ -44,7 +46,8 @@ PROPS = {
                    dict(name="VerifMergeCreateFile", bounds=dict(quick=dict(CALLS=10), thorough=dict(CALLS=12)), opts=dict(unwind=300, workers=8)),
                    dict(name="VerifMergeAppendFile", bounds=dict(quick=dict(CALLS=10), thorough=dict(CALLS=12)), opts=dict(unwind=300, workers=8)),
                    dict(name="VerifMergeCreateZipFile", bounds=dict(quick=dict(CALLS=10), thorough=dict(CALLS=12)), opts=dict(unwind=300, workers=8)),
-                   dict(name="VerifWriteContextAbort", pkg=PD, opts=dict(unwind=300, workers=4))],
+                   dict(name="VerifWriteContextAbort", pkg=PD, opts=dict(unwind=300, workers=4)),
+                   dict(name="VerifStreamInOut", pkg=CLI, opts=dict(unwind=300, workers=8))],
     ),
     "C04": dict(
         pkg="./cmd/pdfcpu",
@@ -154,7 +157,7 @@ PROPS = {
             dict(name="VerifFilterRoundTrip", bounds=dict(quick=dict(N=3, PIPE=2), thorough=dict(N=5, PIPE=2)), opts=dict(unwind=300)),
             dict(name="VerifRunLengthRuns", opts=dict(unwind=600)),
             dict(name="VerifASCII85RoundTrip", bounds=dict(quick=dict(N=3), thorough=dict(N=3)), opts=dict(enc="int", solver="z3-new", timeout_ms=30000, workers=4, unwind=300)),
-            dict(name="VerifASCII85Pipelines", bounds=dict(quick=dict(N=1), thorough=dict(N=2)), opts=dict(enc="int", solver="z3-new", timeout_ms=120000, workers=6, unwind=300), thorough_only=True),
+            dict(name="VerifASCII85Pipelines", bounds=dict(quick=dict(N=1), thorough=dict(N=1)), opts=dict(enc="int", solver="z3-new", timeout_ms=30000, workers=6, unwind=300), thorough_only=True),
         ],
     ),
     "C16": dict(
@@ -188,6 +191,7 @@ PROPS = {
             dict(name="VerifWriteObjectOffsets", bounds=dict(quick=dict(OBJMAX=99, GENMAX=9, S=1), thorough=dict(OBJMAX=999, GENMAX=99, S=2)), opts=dict(unwind=300, timeout_ms=60000)),
             dict(name="VerifXRefTableSection", bounds=dict(quick=dict(OBJ=2, OFFMAX=999), thorough=dict(OBJ=3, OFFMAX=9999)), opts=dict(unwind=400, enc="int", timeout_ms=60000)),
             dict(name="VerifXRefStreamSection", bounds=dict(quick=dict(OBJ=2, POSMAX=300), thorough=dict(OBJ=2, POSMAX=70000)), opts=dict(unwind=400, timeout_ms=60000)),
+            dict(name="VerifStreamLengthAfterEncode", bounds=dict(quick=dict(S=2), thorough=dict(S=4)), opts=dict(unwind=300)),
             dict(name="VerifFreeList", pkg=MO, bounds=dict(quick=dict(OBJ=2), thorough=dict(OBJ=3)), opts=dict(unwind=100, maprotate=True, wall_timeout=6000)),
         ],
     ),
@@ -285,11 +289,12 @@ PROPS = {
     "C33": dict(
         pkg=API,
         explanation="the arithmetic that decides which pages go where, executed symbolically with the page extraction itself replaced by a recorder: pageSpans and writePageSpans (page count 1..P, span any integer: refused iff <= 0, otherwise consecutive spans of exactly span pages, last possibly shorter, that partition 1..PageCount), writePageSpansSplitAlongPages + validateSplitPageNumbers (lists of 0..K symbolic page numbers, any order / duplicates / out of range: refused, or a partition of 1..PageCount whose parts start exactly at the listed pages), PagesForPageRange; for merging, the object renumbering lookupTable / patchObject / patchDict / patchArray / patchObjects (K symbolic distinct source numbers, symbolic destination size: injective onto size..size+K-1, exactly the references to source objects rewritten, generation kept) under every map-iteration starting point",
-        outside="ExtractPages and the page-tree surgery of merge (appendSourcePageTreeToDestPageTree, InsertPages/AppendPages for zip mode, divider pages), bookmark splits, i.e. that the pages of a span ARE the original pages and that merged page trees list the pages in order: whole-document object graphs",
+        outside="ExtractPages, the zip-mode page-tree surgery (InsertPages/AppendPages) and divider pages (append mode without divider IS checked: VerifMergeAppendPageTree appends one or two sources of 1..P pages to a destination whose root carries any subset of the inheritable attributes and walks the resulting tree), bookmark splits, i.e. that the pages of a span ARE the original pages and that merged page trees list the pages in order: whole-document object graphs",
         harnesses=[
             dict(name="VerifSplitSpans", bounds=dict(quick=dict(P=12), thorough=dict(P=31)), opts=dict(unwind=300)),
             dict(name="VerifSplitSpansFiles", bounds=dict(quick=dict(P=12), thorough=dict(P=31)), opts=dict(unwind=300)),
             dict(name="VerifSplitAlongPages", bounds=dict(quick=dict(P=8, K=3), thorough=dict(P=30, K=4)), opts=dict(unwind=300)),
+            dict(name="VerifMergeAppendPageTree", pkg=PD, bounds=dict(quick=dict(P=2), thorough=dict(P=3)), opts=dict(unwind=300)),
             dict(name="VerifMergeRenumbering", pkg=PD, bounds=dict(quick=dict(K=3), thorough=dict(K=4)), opts=dict(unwind=300, maprotate=True)),
         ],
     ),
